@@ -44,6 +44,9 @@ impl Report {
         e.0 += 1;
     }
     pub fn merge(&mut self, o: Report) {
+        self.total += o.total;
+        self.nontrivial.extend(o.nontrivial);
+        if self.samples.len() < 3 { self.samples.extend(o.samples.into_iter().take(1)); }
         self.violations.extend(o.violations);
         self.drift.extend(o.drift);
         for (k, (n, w, p)) in o.known { let e = self.known.entry(k).or_insert((0, w, p)); e.0 += n; }
